@@ -46,6 +46,8 @@ structure Ep where
   storedInit : Bool := false
   storedCookie : Option Nat := none
   queue : List Msg := []   -- controlQueue: chunks queued but not yet marshalled by the write loop
+  t1i : Bool := false      -- T1-init timer running
+  t1c : Bool := false      -- T1-cookie timer running
   deriving Repr, DecidableEq, Inhabited
 
 /-- Go: setSupportedExtensions -/
@@ -105,7 +107,7 @@ def handleInit (e : Ep) (types : List Nat) (zc : Option Nat) : Ep × List Msg :=
 def handleInitAck (e : Ep) (types : List Nat) (zc : Option Nat) (cookie : Nat) : Ep × List Msg :=
   if e.st != stCookieWait then (e, [])
   else
-    let e1 := { updateIl (learnPeer e types zc) with storedInit := false, storedCookie := some cookie, st := stCookieEchoed }
+    let e1 := { updateIl (learnPeer e types zc) with storedInit := false, storedCookie := some cookie, st := stCookieEchoed, t1i := false, t1c := true }
     (e1, [.cookieEcho cookie])
 
 /-- Go: handleCookieEcho -/
@@ -116,14 +118,14 @@ def handleCookieEcho (e : Ep) (cookie : Nat) : Ep × List Msg :=
   else if e.st == stClosed || e.st == stCookieWait || e.st == stCookieEchoed then
     if cookie != e.id then (e, [])
     else
-      let e1 := establish { e with storedInit := false, storedCookie := none }
+      let e1 := establish { e with storedInit := false, storedCookie := none, t1i := false, t1c := false }
       (e1, [.cookieAck])
   else (e, [])
 
 /-- Go: handleCookieAck -/
 def handleCookieAck (e : Ep) : Ep × List Msg :=
   if e.st != stCookieEchoed then (e, [])
-  else (establish { e with storedCookie := none }, [])
+  else (establish { e with storedCookie := none, t1c := false }, [])
 
 /-- one inbound packet: new endpoint state and the chunks it queues in reply -/
 def handle (e : Ep) (p : Pkt) : Ep × List Msg :=
@@ -136,7 +138,7 @@ def handle (e : Ep) (p : Pkt) : Ep × List Msg :=
 
 /-- Go: initClient -/
 def start (e : Ep) : Ep × List Msg :=
-  ({ e with storedInit := true, st := stCookieWait }, [.init (extTypes e.il) (zcParam e.zc)])
+  ({ e with storedInit := true, st := stCookieWait, t1i := true }, [.init (extTypes e.il) (zcParam e.zc)])
 
 /-- Go: onRetransmissionTimeout for T1-init / T1-cookie -/
 def t1Init (e : Ep) : Ep × List Msg :=
